@@ -10,6 +10,7 @@
    * unary minus is  const -1; mul ;  'not' is i32.eqz;  logical operands are normalised by
      const 0; ne  around an if/else;  casts between types that share a WebAssembly type emit
      nothing;  float -> int uses the trapping trunc;  '^' calls the import math.pow_<type>;
+   * an if / else-if condition held in an i64 / f32 / f64 register is compared with zero first;
    * float '%' is a compile error;  statements after a diverging statement are not compiled;
      an if/else whose branches all return is followed by  unreachable.
    No proofs in this file. *)
@@ -86,11 +87,12 @@ Definition cast_code (from to : ty) : list instr :=
 Definition norm_bool : list instr := [IConst W32 0; IRel W32 INe].
 
 (* literal.go ParseNumeric/parseIntegerLiteral + expression/literal.go compileNumericLiteral:
-   strconv.ParseInt(…, 64) first, then the range check of the target type *)
+   strconv.ParseInt(…, 64) (for a u64 target: ParseUint when that overflows — fix for finding
+   F13j), then the range check of the target type; all of which amounts to z <= max of the type *)
 Definition lit_code (eff : ty) (z : Z) : option (list instr) :=
   match eff with
   | TI t =>
-      if (z <=? 2 ^ 63 - 1) && (z <=? imax t)
+      if z <=? imax t
       then Some [IConst (regw t) (sgn (regw t) z)]
       else None
   | TF _ => None      (* integer literal under a float hint: not modelled (needs float(z)) *)
@@ -181,8 +183,17 @@ Section Expr.
     | None => None
     end.
 
+  (* statement/control.go emitConditionTruthiness: a condition that is not carried in an i32
+     register is turned into  value != 0  (fix for finding F13h) *)
+  Definition truthiness (t : ty) : list instr :=
+    match vt_of t with
+    | VTI W32 => []
+    | VTI W64 => [IConst W64 0; IRel W64 INe]
+    | VTF f => [FConst f 0; FRel f CNe]
+    end.
+
   Definition ccond (c : expr) : option (list instr) :=
-    match cexpr None (reparse c) with Some (cc, _) => Some cc | None => None end.
+    match cexpr None (reparse c) with Some (cc, t) => Some (cc ++ truthiness t) | None => None end.
 
   Variable ret : ty.
 
